@@ -81,6 +81,41 @@ REG = {
     technique='Lean 4 proof over a model regenerated from source + differential correspondence',
     ref='§5-C15'),
 }
+REG['C01'] = dict(
+    text='Lean 4 theorems over a model of PAGE XML export/import on a neutral element tree with own decimal printers/parsers: '
+         'import(export v p) = canon p for every well-formed quantised page and both versions (ids, types, polygons, region text, '
+         'line ids, indices, baselines, polygons, heights, transcriptions incl. empty/absent, confidences), canon idempotent, '
+         'export/import fixpoint; the reading-order sort is a permutation, sorted with unlisted regions last, and stable; the '
+         'sort key (by region id) is REGENERATED from the source each run. Correspondence: the real export parsed by lxml into the '
+         'neutral tree equals the model export of the independently (decimal) quantised page; the real loader equals the model '
+         'import; oracle compares reload and second/third export on the real code.',
+    note='Trusted (not verified): lxml serialisation/escaping/parsing and Unicode handling; CPython float formatting (:.1f/:.3f) '
+         'and np.round; guess_line_heights_from_polygon (lines without stored heights are covered by the fixpoint oracle only).',
+    technique='Lean 4 proof (printer/parser round trips, tree round trip, stable sort laws) + differential correspondence via lxml',
+    ref='§5-C01')
+REG['C07'] = dict(
+    text='Lean 4 theorems over a model of process_lines batching: the processing order is a permutation (stable, descending '
+         'width); the batches partition it (no empty batch, every line in exactly one batch), hence every input position gets '
+         'exactly one result and it is the network output for that line (given locality); the widest line determines the tensor '
+         'width unless cropped to the engine maximum; frame window = image of the un-padded columns; sparse storage keeps exactly '
+         'the logits with posterior >= threshold. Correspondence: exact batch composition/padded widths/windows against the real '
+         'process_lines with a recording run_ocr; oracle on the real PytorchEngineLineOCR with a TorchScript stub: each line\'s '
+         'transcription/window/logits equal those of the line processed alone, for any order, batch mates and batch size.',
+    note='Trusted: the network is local (the property\'s own assumption; true for the stub); float conv results compared with atol '
+         '1e-4; translator reads pad=32, 480*batch_size, 1e-4, sub=4. Over-long lines: truncation depends on the budget 480*batch_size.',
+    technique='Lean 4 proof (permutation + chunking + scatter = identity) + differential correspondence + stub-network oracle',
+    ref='§5-C07')
+REG['C12'] = dict(
+    text='Lean 4 theorems over a fuel-bounded functional model of the smart sorter (couple/grow/decouple/divide) and of the naive '
+         'sorter: the smart sorter always terminates (fuel 2n+2 is never exhausted; the result is independent of the fuel above '
+         'n+2) and returns a permutation of the input boxes for every set of boxes and every intersection parameter; coupling '
+         'partitions its input; the naive order is a permutation for every DBSCAN labelling 0..k-1. Exact correspondence of the '
+         'region ORDER with the real sorters on integer layouts (grids, overlapping in both axes, identical, degenerate boxes); '
+         'slanted pages: oracle (permutation, content intact, polygons equal as shapes up to 1e-6).',
+    note='Trusted: shapely rotation (de-skew) and DBSCAN are parameters; NumPy x/0 semantics. Observation: the configured '
+         'FakeIntersectionParameter is ignored by the code (intersect() always uses its default 0.1).',
+    technique='Lean 4 proof (termination by fuel bound; permutation invariants) + differential correspondence',
+    ref='§5-C12')
 REG['C09'] = dict(
     text='Lean 4 theorems over a model of _gen_logits / load_logits (one insertion-ordered dict with the two reserved keys): for '
          'distinct, non-reserved line ids loading a saved page restores for every line exactly the saved logits, characters and '
